@@ -20,7 +20,14 @@
 //!    marker); a zone whose handlers all decline (Skip): rcode not judged, no marker allowed;
 //!  * ACL: address family without any entry while the other family has entries (doc comment of
 //!    `AccessControl` is ambiguous) – REFUSED and service both admissible;
-//!  * header bits of the response other than QR, ID, RCODE; additional/authority section content.
+//!  * header bits of the response other than QR, ID, RCODE (and TC, see next); additional/authority
+//!    section content;
+//!  * a truncated response (TC=1) may have lost every record, so no marker is demanded from it;
+//!    octets left over after the last counted record (the C03 defect: the size-limited encoder does
+//!    not remove a partially written record) are counted (`response_trailing_octets_c03`), not judged.
+//!
+//! Finding signature = (clause, gate branch): clause ∈ count | id | qr | question | rcode | zone |
+//! wire | panic | hang | survival; branch = the model's primary branch (see model.rs).
 
 mod cfg;
 mod model;
@@ -319,7 +326,7 @@ fn main() {
     let mut ids = reqgen::Ids { next_id: rng.u16(), nonce: 0, shard: ctx.shard };
     // `--mode=socket` (development aid): skip the in-process workload
     let socket_only = ctx.extra.get("mode").map(|m| m == "socket").unwrap_or(false);
-    let total = if socket_only { 0 } else { ctx.budget(1_600_000, 24_000_000) };
+    let total = if socket_only { 0 } else { ctx.budget(1_200_000, 24_000_000) };
     let mut done = 0u64;
     while done < total {
         let cfg = cfg::gen_config(&mut rng);
